@@ -11,20 +11,20 @@ LATER = {
  "C04": " Later additions: an algorithm mismatch combined with a second defect still yields the mismatch error; two different alg values under two Go spellings of label 1 let nothing proceed.",
  "C05": " Later additions: integer label 0 vs the empty text label in crit; a later COSE_Sign signer sharing protected bytes with an earlier one with the IV pair split across its buckets.",
  "C06": " Later additions: integers at the ends of their ranges in every selecting position, CWT claims of every registered shape incl. the confirmation claim, envelope rules reached through an accepting verifier.",
- "C07": " Later additions: repeated identical COSE_Signature entries; alg in the unprotected bucket of layers signed with external data.",
- "C08": " Later additions: received messages signed again (emitted protected bytes = signed = received); the objects inside one received message encode identically on every decode.",
+ "C07": " Later additions: repeated identical COSE_Signature entries; alg in the unprotected bucket of layers signed with external data; the IV (or Partial IV) repeated under the same label in the other bucket.",
+ "C08": " Later additions: received messages signed again (emitted protected bytes = signed = received); the objects inside one received message encode identically on every decode; a kid / Base IV that is present and empty stays present through the key round trip.",
  "C09": " Later additions: with only the outer raw unprotected bytes discarded, the countersignature layers below come out byte-identical; every array head of a message in every wider spelling, the prediction keeps the sender's structure heads; countersignature chains of depth 4-8.",
- "C10": " Later additions: VerifyCountersign0 with no signature argument fails also when the parent's header carries a valid abbreviated countersignature; embedding structs, pointer chains, pointers to interfaces and defined types over the parent structs are refused; parent signatures whose bytes read as CBOR themselves.",
+ "C10": " Later additions: VerifyCountersign0 with no signature argument fails also when the parent's header carries a valid abbreviated countersignature; embedding structs, pointer chains, pointers to interfaces and defined types over the parent structs are refused; parent signatures whose bytes read as CBOR themselves; received parents whose signatures, signature or payload were removed afterwards are refused.",
  "C11": " Later additions: verifiers whose Go type has extra methods (KeyID, Kid, Public, ...); signer layers received separately with a wide protected head attached to a local body.",
  "C12": " Later additions: hand-made raw unprotected bytes whose values break general header rules; locations of white space only; digit-only content types; registered hash ids without a length rule; text that is not UTF-8 (open finding F4).",
- "C13": " Later additions: CBOR simple values in every int-or-text position; integer label 0 vs the empty text label and digit-string labels in crit; IV and Partial IV in different layers of one message.",
- "C14": " Later additions: a key-derived signer keeps signing with its key after the Key variable was re-used, wiped or cleared; extra parameters under small negative labels.",
+ "C13": " Later additions: CBOR simple values in every int-or-text position; integer label 0 vs the empty text label and digit-string labels in crit; IV and Partial IV in different layers of one message; texts with more than one slash are not type/subtype strings.",
+ "C14": " Later additions: a key-derived signer keeps signing with its key after the Key variable was re-used, wiped or cleared; extra parameters under small negative labels; public points whose x lies between the group order and the field prime.",
  "C15": " Later additions: digit-string text labels instead of and next to the integer labels with conflicting values; SEC1 points carried in x.",
- "C16": " Later additions: key objects given a key of another curve after the signer/verifier was first used; a valid signature followed or preceded by whole further fields.",
- "C17": " Later additions: RSA moduli of 8192-16384 bits; keys that cannot be asked for their public half with unsupported algorithms.",
- "C18": " Later additions: countersignatures attached to decoded messages afterwards; hand-assembled keys with an integer curve; shared messages whose RawProtected is not one byte string; URL objects as x5u; keys with int-typed parameter labels.",
+ "C16": " Later additions: key objects given a key of another curve after the signer/verifier was first used; a valid signature followed or preceded by whole further fields; valid signatures inside CBOR / DER / length-prefix framing are refused.",
+ "C17": " Later additions: RSA moduli of 8192-16384 bits; keys that cannot be asked for their public half with unsupported algorithms; RSA: every other PS verifier of the same key refuses, whichever digest it is offered.",
+ "C18": " Later additions: countersignatures attached to decoded messages afterwards; hand-assembled keys with an integer curve; shared messages whose RawProtected is not one byte string; URL objects as x5u; keys with int-typed parameter labels; short coordinates held in slices with spare capacity.",
  "C19": " Later additions: structurally fine, semantically odd inputs (typ naming another structure, x5t not matching x5chain, ...) decoded into used destinations.",
- "C20": " Later additions: received objects (both raw buckets present) re-signed by failing signers must not serialise; signers whose SignDigest behaves differently from Sign; SignHashEnvelope with a working signer and inputs a later step objects to.",
+ "C20": " Later additions: received objects (both raw buckets present) re-signed by failing signers must not serialise; signers whose SignDigest behaves differently from Sign; SignHashEnvelope with a working signer and inputs a later step objects to; every single-call fault under seven header shapes (retained raw bytes, no alg, nil maps).",
 }
 # id -> (level category, technique, level text, level note, design ref)
 CHECKS = {
